@@ -17,7 +17,7 @@ var ops = []string{"NewSink", "NewSource", "SetPacketFilter", "SetReadDeadline",
 
 func classesFor(op string) []string {
 	if op == "Read" {
-		return []string{"fatal", "deadline", "zero", "fatal-data"}
+		return []string{"fatal", "deadline", "zero", "fatal-data", "fatal-etimedout"}
 	}
 	if op == "SinkClose" || op == "SourceClose" {
 		return []string{"close-fails"}
@@ -108,7 +108,7 @@ func check(it *proto.Item, r *proto.Result) []proto.Issue {
 		}
 	} else {
 		switch cl {
-		case "fatal", "fatal-timeout", "fatal-slow", "fatal-data":
+		case "fatal", "fatal-timeout", "fatal-slow", "fatal-data", "fatal-etimedout":
 			if o.Err == nil {
 				out = append(out, proto.Issue{Key: "failure-swallowed", Detail: fmt.Sprintf("%s: the run returned success with hops %s", where, proto.HopsString(proto.Hops(o.Run)))})
 			} else {
